@@ -31,8 +31,14 @@ def _hash_order(chk, program):
     dfn = program.fn('decoder', 'NMEA2000Decoder._call_decode_function')
     order = [n.func.attr for n in ast.walk(dfn) if isinstance(n, ast.Call) and isinstance(n.func, ast.Attribute) and n.func.attr in ('add_data', 'apply_preferred_units')]
     lines = {n.func.attr: n.lineno for n in ast.walk(dfn) if isinstance(n, ast.Call) and isinstance(n.func, ast.Attribute) and n.func.attr in ('add_data', 'apply_preferred_units')}
-    chk.check(sorted(order) == ['add_data', 'apply_preferred_units'] and lines['add_data'] < lines['apply_preferred_units'], 'HASH-ORDER', 'hash-before-unit-conversion', file='nmea2000/decoder.py',
-              line=lines.get('add_data', dfn.lineno), func='_call_decode_function', expected='add_data (hash) is called before apply_preferred_units', found=order)
+    in_order = sorted(order) == ['add_data', 'apply_preferred_units'] and lines['add_data'] < lines['apply_preferred_units']
+    # the order only matters when the conversion writes something the hash reads: with raw_value / id / part_of_primary_key never written by
+    # apply_preferred_units (the obligation below) and the hash a function of those alone (HASH-DEPS), any order gives the same hash
+    apu = program.fn('message', 'NMEA2000Message.apply_preferred_units')
+    touches = [n.attr for n in ast.walk(apu) if isinstance(n, ast.Attribute) and isinstance(n.ctx, ast.Store) and n.attr in ('raw_value', 'id', 'part_of_primary_key')]
+    chk.check(in_order or not touches, 'HASH-ORDER', 'hash-before-unit-conversion', file='nmea2000/decoder.py',
+              line=lines.get('add_data', dfn.lineno), func='_call_decode_function', expected='the hash is taken before apply_preferred_units, or the conversion writes nothing the hash reads',
+              found={'calls': order, 'conversion writes': touches})
     args = [n for n in ast.walk(dfn) if isinstance(n, ast.Call) and isinstance(n.func, ast.Attribute) and n.func.attr == 'add_data']
     if args:
         adp = [a_.arg for a_ in program.fn('message', 'NMEA2000Message.add_data').args.args][1:]
